@@ -3,7 +3,9 @@ package lua
 import (
 	"context"
 	"fmt"
+	"io"
 	"os"
+	"strings"
 )
 
 type LValueType int
@@ -113,6 +115,23 @@ func (st LString) Format(f fmt.State, c rune) {
 		} else {
 			defaultFormat(string(st), f, c)
 		}
+	case 's':
+		// width and precision count bytes, not UTF-8 runes
+		str := string(st)
+		if p, ok := f.Precision(); ok && p < len(str) {
+			str = str[:p]
+		}
+		if w, ok := f.Width(); ok && w > len(str) {
+			switch {
+			case f.Flag('-'):
+				str += strings.Repeat(" ", w-len(str))
+			case f.Flag('0'):
+				str = strings.Repeat("0", w-len(str)) + str
+			default:
+				str = strings.Repeat(" ", w-len(str)) + str
+			}
+		}
+		io.WriteString(f, str)
 	default:
 		defaultFormat(string(st), f, c)
 	}
